@@ -71,3 +71,18 @@ Theorem C10_startup : forall L a b c d r,
   untyped L (a :: b :: c :: d :: r) = None.
 Proof. intros L a b c d r H. unfold untyped. rewrite H. reflexivity. Qed.
 Print Assumptions C10_startup.
+
+(* ---------- the whole connection against the executable oracle ---------- *)
+Require Import Wire.RobustFacts Wire.Case Spec.Oracles Spec.OracleFacts Spec.OracleFactsStartup.
+
+(* the model's log of every scriptable case without COPY handlers passes [oracle_C10]: the
+   reply discipline for oversized messages (one ErrorResponse 54000 / ERROR, ReadyForQuery
+   exactly for non-extended types, silence while skipping, no callback), and a startup
+   packet the protocol definition accepts — within the limit, well-formed parameter block —
+   on a server without password authentication whose middlewares succeed is served *)
+Theorem C10_model_satisfies_oracle : forall sc,
+  case_nocopy sc = true ->
+  (forall v after rest, start (cfg_of_case sc) (sc_raw sc) = Some (v, after, rest) -> v <> version_ssl) ->
+  oracle_C10 sc (run_case sc) = true.
+Proof. exact oracle_C10_model. Qed.
+Print Assumptions C10_model_satisfies_oracle.
